@@ -29,8 +29,8 @@ add("C23", "proof", "every ensures clause and both loop invariants of connected_
 add("C24", "proof", "16 targets of OrderedSet.py (constructor, add, discard, update, copy, len, contains, iter, <=, >=, ordered_union/intersect/diff) proved against the abstraction (member set, injective insertion stamps): 130 obligations incl. loop invariants with the ghost first-occurrence map. Inherited MutableSet mixins and __lt__/__gt__/union are only in the bounded ride-along (all op sequences ≤3/4).",
     PYVC_TB + "; OrderedDict iteration = insertion order; update proved for 0,1,2 iterables", "contract-based deductive verification: representation invariant + loop invariants, VCs from the real AST, z3", "§5 C24")
 
-add("C04", "other", "bounded: every SQL formatting/optimisation option combination (2^4 x 3 indents x extend-merge on/off on SQLite; PostgreSQL text with CTE elimination on the sqlite3 surrogate) must return the same table as the default options, on the enumerated corpus plus DAGs that share a sub-pipeline. No obligation proved yet for this property.",
-    BOUNDED_TB + "; PostgreSQL dialect text executed on sqlite3 as a labelled surrogate", "run-time contract over an enumerated small scope (bounded stand-in); no obligation proved", "§5 C04")
+add("C04", "other", HYB + "PROVED: SQLModel._indent_and_sep_terms lays out exactly one line per term, in order, with indent / comma decoration only, for every option setting. BOUNDED: every SQL formatting/optimisation option combination (2^4 x 3 indents x extend-merge on/off on SQLite; PostgreSQL text with CTE elimination on the sqlite3 surrogate) must return the same table as the default options, on the enumerated corpus plus DAGs that share a sub-pipeline.",
+    PYVC_TB + "; " + BOUNDED_TB + "; PostgreSQL dialect text executed on sqlite3 as a labelled surrogate", "contract-based deductive verification of the term layout routine (VCs from the real AST, z3) + run-time contracts over an enumerated scope for the option combinations", "§5 C04")
 add("C05", "other", "bounded: every catalogued (method, backend) pair marked supported (Pandas, SQLite; Polars when it returns) against doc_meaning reference functions written from the Term docstrings, over an operand grid incl. nulls. The 3VL proofs of the SQL formatters are not built yet.",
     BOUNDED_TB + "; PostgreSQL column of the catalogue not executed", "run-time contract over an enumerated operand grid (bounded stand-in); no obligation proved", "§5 C05")
 add("C07", "other", HYB + "PROVED for all inputs: every replace_leaves (10 node classes) rebuilds its node from the replaced sources and every stored constructor argument, binding the builders' real signatures; BOUNDED: the four composition routes, associativity (by result) and dom/cod on the real code over enumerated pairs/triples.",
@@ -45,14 +45,14 @@ add("C12", "other", "bounded: all expression trees up to the stated depth in eve
     BOUNDED_TB + "; lark grammar; black", "run-time contract over an enumerated small scope (bounded stand-in); no obligation proved", "§5 C12")
 add("C13", "other", "bounded: all expression texts up to the stated operator count: value through the real Pandas executor vs Python's eval, tree shape vs ast.parse, print/parse round trip.",
     BOUNDED_TB + "; lark LALR + vendored grammar", "run-time contract over an enumerated small scope (bounded stand-in); no obligation proved", "§5 C13")
-add("C14", "other", "bounded: all strings up to the stated length over a special-character alphabet as literal, column, table, concat label, control-table entry and annotation: executed and read back on SQLite (PostgreSQL text on the surrogate), tokenised by a dialect lexer for MySQL / Spark / BigQuery. The quote_string induction lemma is not built.",
-    BOUNDED_TB + "; dialect lexers written from the vendors' lexical documentation", "run-time contract over an enumerated small scope (bounded stand-in); no obligation proved", "§5 C14")
+add("C14", "other", HYB + "PROVED: SQLModel.quote_identifier rejects exactly the identifiers that contain the identifier quote and otherwise carries the identifier verbatim between two quotes (strings uninterpreted). BOUNDED: all strings up to the stated length over a special-character alphabet as literal, column, table, concat label, control-table entry and annotation: executed and read back on SQLite (PostgreSQL text on the surrogate), tokenised by a dialect lexer for MySQL / Spark / BigQuery. quote_string's doubling/undoubling lemma needs string induction and is not proved.",
+    PYVC_TB + "; " + BOUNDED_TB + "; dialect lexers written from the vendors' lexical documentation", "contract-based deductive verification of quote_identifier (VCs from the real AST, z3) + run-time contracts over an enumerated scope for literals and dialects", "§5 C14")
 add("C15", "exploration", "bounded stand-in only: renaming one column/table at a time to every internal name harvested from the current source, over the operator-pair corpus on Pandas, Polars, SQLite.",
     BOUNDED_TB, "run-time contract over an enumerated small scope (bounded stand-in, not proved)", "§5 C15")
 add("C16", "other", HYB + "PROVED: the SQLite right-join emulation hands the generic translator a LEFT join with sources AND keys swapped, left_is_first=False, caller's node untouched. BOUNDED: join type x key specification x all small table pairs (null and duplicate keys) on Pandas, Polars, SQLiteModel (emulated right/full) and native RIGHT/FULL text, against a reference join and a hand-written native SQL join. The key-swap obligation of the SQLite right-join emulation is not built as a proof (the defect itself was fixed).",
     PYVC_TB + "; " + BOUNDED_TB, "contract-based deductive verification of the glue / text-generation obligations (VCs from the real AST, z3) + run-time contracts over an enumerated scope for the engine-dependent part", "§5 C16")
-add("C17", "exploration", "bounded stand-in only: inverse / compose / >> laws and Pandas≡Polars for all small strict control tables and conforming data tables.",
-    BOUNDED_TB, "run-time contract over an enumerated small scope (bounded stand-in, not proved)", "§5 C17")
+add("C17", "other", HYB + "PROVED: RecordMap.__init__ (normalisation of row-record specifications, at least one side, columns_needed / columns_produced, writes only the new object), RecordMap.inverse (swaps the sides: needs what this map produces and produces what it needs), map_to_rows / map_from_rows, and the order of the two conversions in RecordMap.transform. BOUNDED: inverse / compose / >> laws and Pandas≡Polars for all small strict control tables and conforming data tables (the conversion routines themselves are not under contract).",
+    PYVC_TB + "; " + BOUNDED_TB, "contract-based deductive verification of the record-map constructor / inverse / transform glue (VCs from the real AST, z3) + run-time contracts over an enumerated scope for the conversions", "§5 C17")
 add("C20", "proof", "13 public methods of DataModelSpace and DBSpace proved against the keyed-store abstraction with postconditions over the WHOLE view, also on raising paths (96 obligations); DBSpace.execute onto an existing key is a recorded finding (region split: the residual obligation is discharged). All histories up to length 3/4 on both real spaces ride along.",
     PYVC_TB + "; database handle under ASSUMED keyed-store contracts; eval / CREATE TABLE AS as functions of the store contents", "contract-based deductive verification (whole-view postconditions, VCs from the real AST, z3) + bounded histories", "§5 C20")
 add("C21", "exploration", "bounded stand-in only: rank_to_average, last_observed_carried_forward, replicate_rows_query, def_multi_column_map against independent reference computations on all small tables, Pandas and SQLite.",
@@ -60,8 +60,8 @@ add("C21", "exploration", "bounded stand-in only: rank_to_average, last_observed
 add("C27", "other", HYB + "PROVED (region contract on the real SQLModel.extend_to_near_sql): the OVER clause lists ALL partition columns and ALL order columns in the declared order with DESC exactly on the reversed ones, and is absent exactly for row-wise extends. BOUNDED: each window function x partition/order/reverse specification x all small tables with total orders against a reference window evaluator, and consecutive extends with permuted order priority; backends per the live catalogue, Polars when it returns. The Pandas / Polars window code is not under contract.",
     PYVC_TB + "; string + and join uninterpreted; " + BOUNDED_TB, "contract-based deductive verification of the glue / text-generation obligations (VCs from the real AST, z3) + run-time contracts over an enumerated scope for the engine-dependent part", "§5 C27")
 
-add("C22", "other", "bounded: all specifications of depth <= 2 x argument/return values (scalars, pandas and polars frames with right/wrong/missing/extra/null columns): raises TypeError <=> the oracle conforms() says violated; switch off => never raises; result returned unchanged. No obligation proved for this property.",
-    BOUNDED_TB, "run-time contract over an enumerated small scope (bounded stand-in); no obligation proved", "§5 C22")
+add("C22", "other", HYB + "PROVED (two loop invariants): check_args raises TypeError exactly when the switch is on, specifications are declared and a declared argument is missing or violates its specification (positional matched by parameter name, keyword by name); check_return exactly when the return value violates the return specification; `_check_spec` abstracted as None iff conforms(spec, value). BOUNDED: all specifications of depth <= 2 x argument/return values (scalars, pandas and polars frames with right/wrong/missing/extra/null columns): raises TypeError <=> the oracle conforms() says violated; switch off => never raises; result returned unchanged.",
+    PYVC_TB + "; " + BOUNDED_TB, "contract-based deductive verification of check_args / check_return (loop invariants, VCs from the real AST, z3) + run-time contracts over an enumerated scope for the conformance test and the decorator wiring", "§5 C22")
 add("C25", "other", HYB + "PROVED for all inputs: ResultCache.get hits only for a stored key, returns a new object equal to the stored result and changes nothing; ResultCache.store leaves an equal result alone, else stores a private copy under exactly that key (frames as heap objects, so aliasing is visible); BOUNDED: make_cache_key / hash_data_frame separation of tables differing in a value, column name, shape or row order, and store/get histories.",
     PYVC_TB + "; make_cache_key assumed a function of (model, sql, names and contents); pandas copy/equals contracts; " + BOUNDED_TB, "contract-based deductive verification of get/store (VCs from the real AST, z3) + run-time contracts over an enumerated scope for the hashing", "§5 C25")
 add("C26", "other", HYB + "PROVED for all inputs: the 10 builders forward every argument (join-key check flag included) through an eliminated order_rows and to the constructors, select_columns validates against its own step also when collapsing; BOUNDED: the constructors' rule checks on every enumerated prefix x violating/conforming step per rule, and no accepted pipeline raises a rule error at evaluation.",
